@@ -41,6 +41,13 @@ theorem C01_fifo_tsn_order (cfg : Sender.Cfg) (tsn peerRwnd : BitVec 32) (ops : 
         (Sender.run (Sender.init cfg tsn peerRwnd) ops).pending.map Chunk.frag :=
   moved_prefix_written cfg tsn peerRwnd ops hsel
 
+/-- **Over reliable ordered streams only ordered chunks are queued** — the hypothesis of `C17.C17_ordered_only_fifo`.
+In every NetSys run whose streams are all opened ordered (`Reliable`), every chunk any write pushes to the pending queue
+has `unordered = false`. -/
+theorem C01_reliable_pushes_ordered (P : Params) (ops : List Op) (hrel : Reliable ops = true) :
+    ∀ c ∈ written (init P).snd (sndOps P (init P).snd ops), c.unordered = false :=
+  reliable_written_ordered P ops hrel
+
 /-- ✱ **`SelContig` holds for FIFO selection.** For every NetSys run over reliable ordered streams in which every
 gather selects the oldest pending chunk every time (`SelFifo`), the move order (= TSN order) is message-contiguous and
 per-stream first-in-first-out. Any configuration (interleaving on or off), any SACKs, any deliveries. -/
@@ -69,7 +76,7 @@ private def bytes (m : Nat) : List UInt8 :=
   | _ => []
 
 -- the DATA workload of `Props/C01net.lean`: two streams, three messages (3 + 1 + 2 fragments), TSNs wrap; the first
--- gather is cut short by the budget oracle's stand-in (a selection list of two zeros), a later one takes the rest
+-- gather's selection list ends after two chunks, a later gather takes the rest
 private def PD : Params := { cfg := { mtu := 1200, maxPayload := 2 }, tsn := 4294967294#32, pay := bytes }
 private def opsD : List Op :=
   [.snd (.openS 1 false 0 0 0), .snd (.openS 2 false 0 0 0), .write 1 51, .write 2 61,
